@@ -2361,6 +2361,99 @@ def see_through_namedtuples(trees: dict[str, ast.Module], known: dict) -> list[s
     return out
 
 
+def dict_dispatch_to_chains(trees: dict[str, ast.Module]) -> int:
+    """C17: exact-type dispatch through a table,
+
+        T = {K1: V1, …, Kn: Vn}            (a dict display bound once: a local of the function or a module-level name)
+        f = T.get(type(S))                  (S a pure name / attribute path / subscript)
+        if f is None: <raise …>
+        REST                                (uses f, never re-binds it)
+
+    is the chain  `if type(S) is K1: REST[f := V1] elif … else: <raise …>`  (`dict.get` on classes compares by identity);
+    `(lambda: E)()` left behind by the substitution is E.  The table's binding is dropped when nothing else reads it."""
+    n_done = 0
+
+    def subst(stmts, name, val):
+        class R(ast.NodeTransformer):
+            def visit_Name(self, n):
+                return ast.copy_location(copy.deepcopy(val), n) if n.id == name and isinstance(n.ctx, ast.Load) else n
+
+            def visit_Call(self, n):
+                self.generic_visit(n)
+                if isinstance(n.func, ast.Lambda) and not n.args and not n.keywords and not n.func.args.args and not n.func.args.kwonlyargs and n.func.args.vararg is None and n.func.args.kwarg is None:
+                    return ast.copy_location(n.func.body, n)
+                return n
+
+        return [ast.fix_missing_locations(R().visit(copy.deepcopy(s_))) for s_ in stmts]
+
+    for mod, tree in trees.items():
+        module_dicts = {}
+        counts: dict[str, int] = {}
+        for st in tree.body:
+            tg = st.targets if isinstance(st, ast.Assign) else ([st.target] if isinstance(st, ast.AnnAssign) and st.value is not None else [])
+            for t in tg:
+                if isinstance(t, ast.Name):
+                    counts[t.id] = counts.get(t.id, 0) + 1
+                    if isinstance(st.value, ast.Dict):
+                        module_dicts[t.id] = (st, st.value)
+        module_dicts = {k: v for k, v in module_dicts.items() if counts.get(k) == 1}
+        for fn in [f for f in ast.walk(tree) if isinstance(f, (ast.FunctionDef, ast.AsyncFunctionDef))]:
+            changed = True
+            while changed:
+                changed = False
+                for holder in ast.walk(fn):
+                    for fld in ("body", "orelse", "finalbody"):
+                        block = getattr(holder, fld, None)
+                        if not (isinstance(block, list) and block and isinstance(block[0], ast.stmt)):
+                            continue
+                        for i, st in enumerate(block[:-1]):
+                            if not (isinstance(st, ast.Assign) and len(st.targets) == 1 and isinstance(st.targets[0], ast.Name) and isinstance(st.value, ast.Call)):
+                                continue
+                            c = st.value
+                            if not (isinstance(c.func, ast.Attribute) and c.func.attr == "get" and isinstance(c.func.value, ast.Name) and 1 <= len(c.args) <= 2 and not c.keywords):
+                                continue
+                            if len(c.args) == 2 and not (isinstance(c.args[1], ast.Constant) and c.args[1].value is None):
+                                continue
+                            key = c.args[0]
+                            if not (isinstance(key, ast.Call) and isinstance(key.func, ast.Name) and key.func.id == "type" and len(key.args) == 1 and _is_pure(key.args[0])):
+                                continue
+                            tname, fname = c.func.value.id, st.targets[0].id
+                            local_defs = [(j, b) for j, b in enumerate(block[:i]) if isinstance(b, (ast.Assign, ast.AnnAssign)) and b.value is not None and isinstance(b.value, ast.Dict) and any(isinstance(t, ast.Name) and t.id == tname for t in (b.targets if isinstance(b, ast.Assign) else [b.target]))]
+                            if local_defs:
+                                table_stmt, table, is_local = local_defs[-1][1], local_defs[-1][1].value, True
+                            elif tname in module_dicts and tname not in _bound_names(fn):
+                                table_stmt, table, is_local = module_dicts[tname][0], module_dicts[tname][1], False
+                            else:
+                                continue
+                            if not table.keys or any(k is None or not isinstance(k, (ast.Name, ast.Attribute)) for k in table.keys):
+                                continue
+                            guard = block[i + 1]
+                            if not (isinstance(guard, ast.If) and not guard.orelse and _terminates(guard.body) and isinstance(guard.test, ast.Compare) and len(guard.test.ops) == 1 and isinstance(guard.test.ops[0], ast.Is) and isinstance(guard.test.left, ast.Name) and guard.test.left.id == fname and isinstance(guard.test.comparators[0], ast.Constant) and guard.test.comparators[0].value is None):
+                                continue
+                            rest = block[i + 2:]
+                            if any(isinstance(x, ast.Name) and x.id == fname and isinstance(x.ctx, (ast.Store, ast.Del)) for r in rest for x in ast.walk(r)):
+                                continue
+                            node: list[ast.stmt] = guard.body
+                            for k, v in reversed(list(zip(table.keys, table.values))):
+                                test = ast.Compare(left=copy.deepcopy(key), ops=[ast.Is()], comparators=[copy.deepcopy(k)])
+                                node = [ast.fix_missing_locations(ast.copy_location(ast.If(test=test, body=subst(rest, fname, v) or [ast.Pass()], orelse=node), st))]
+                            block[i:] = node
+                            # the table binding goes when nothing reads it any more
+                            readers = [x for x in ast.walk(tree) if isinstance(x, ast.Name) and x.id == tname and isinstance(x.ctx, ast.Load)]
+                            if is_local and not any(x.id == tname for r in [fn] for x in ast.walk(r) if isinstance(x, ast.Name) and isinstance(x.ctx, ast.Load)):
+                                block.remove(table_stmt)
+                            elif not is_local and not readers:
+                                tree.body.remove(table_stmt)
+                            n_done += 1
+                            changed = True
+                            break
+                        if changed:
+                            break
+                    if changed:
+                        break
+    return n_done
+
+
 class _SpliceStars(ast.NodeTransformer):
     """`f(x, *(a, b))` is `f(x, a, b)`."""
 
@@ -2385,6 +2478,10 @@ def canonicalize(trees: dict[str, ast.Module], known: dict | None) -> dict:
     if known is not None:
         log["module_constants"] = see_through_module_constants(trees, known)
         log["namedtuples"] = see_through_namedtuples(trees, known)
+        log["dict_dispatch"] = dict_dispatch_to_chains(trees)
+        if log["dict_dispatch"]:
+            for mod in list(trees):
+                trees[mod] = local_canon(trees[mod])
         kf = known["functions"]
         # names first: a known private function that was merely renamed must not be mistaken for a new helper
         log["renamed_private"] = canonical_private_names(trees, known)
